@@ -7,7 +7,7 @@ func init() {
 		Kernels: []Kernel{
 			{Name: "map-orders", Pkg: ".", Files: []string{"root/fed.go", "root/c01.go", "root/c02.go", "root/c13.go"}, Entry: "VerifDeterminism", Mode: "seq", Native: true,
 				Quick: map[string]int{"k": 2, "maporder": 1}, Thorough: map[string]int{"k": 2, "maporder": 2},
-				Reach: []string{"two runs compared"}, Functions: pipelineFns},
+				Reach: []string{"two runs compared"}, Functions: pipelineFns, Known: []string{"C13-node-fragments-scrub-order"}},
 			{Name: "repeat-with-cache", Pkg: ".", Files: []string{"root/fed.go", "root/c01.go", "root/c02.go", "root/c13.go"}, Entry: "VerifRepeatWithCache", Mode: "seq", Native: true,
 				Reach: []string{"repeat compared"}, Functions: pipelineFns},
 		},
